@@ -323,6 +323,9 @@ def import_impl():
     import importlib
     import pyflwdir  # noqa
     assert os.path.abspath(pyflwdir.__file__).startswith(os.path.abspath(REPO)), pyflwdir.__file__
+    if not os.environ.get("VERIF_NOFUZZ"):
+        import apifuzz          # memory layouts of 2-D arguments and harmless earlier queries, see apifuzz.py
+        apifuzz.install()
     return pyflwdir
 
 
